@@ -8,7 +8,7 @@ use serde_json::json;
 
 use super::common::*;
 use crate::engine::{chunk, guarded, Failure, Prop, Stats, Tier, F};
-use crate::gen::{self, ParamSpec, Site, Times, PRAYER_NAMES};
+use crate::gen::{self, WeatherSpec, ParamSpec, Site, Times, PRAYER_NAMES};
 
 pub struct C09;
 
@@ -24,14 +24,18 @@ pub struct Case {
     /// exactly on the edge of existence, |cos H| == 1)
     #[serde(default)]
     pub boundary_lat: bool,
+    /// explicit weather for the call and for the model's conventional calls alike (a quarter of the generated cases): the
+    /// copied times of the good date are the ones computed with the caller's weather
+    #[serde(default)]
+    pub weather: Option<WeatherSpec>,
 }
 
 /// Independent model of the search: k = 0,1,2,.. over (date-k, date+k), earlier first, using only
 /// the public API with no policy to decide "both exist".
-fn model(site: &Site, params_none: &islamic_prayer_times::Params, date: NaiveDate) -> Option<(NaiveDate, Times, i64)> {
+fn model(site: &Site, params_none: &islamic_prayer_times::Params, date: NaiveDate, weather: Option<WeatherSpec>) -> Option<(NaiveDate, Times, i64)> {
     for k in 0..=366i64 {
         for cand in [date - chrono::Duration::days(k), date + chrono::Duration::days(k)] {
-            let tm = compute_p(site, params_none, cand, None);
+            let tm = compute_p(site, params_none, cand, weather);
             if tm[&Prayer::Fajr].is_ok() && tm[&Prayer::Isha].is_ok() {
                 return Some((cand, tm, k));
             }
@@ -105,7 +109,7 @@ impl C09 {
             st.skip("boundary_directed_but_twilight_exists");
             return Ok(());
         }
-        let Some((gdate, _, _)) = model(&c.site, &params_none, c.date) else {
+        let Some((gdate, _, _)) = model(&c.site, &params_none, c.date, if c.boundary_lat { None } else { c.weather }) else {
             st.skip("model_finds_no_good_day_within_366_days");
             return Ok(());
         };
@@ -157,16 +161,19 @@ impl C09 {
         let params_none = spec.build();
         spec.policy = if c.all_prayers { gen::P_NGD_ALL } else { gen::P_NGD_FI_INV };
         // history independence: a sibling call (same policy, one argument changed) on this thread first
-        prime(&c.site, &spec, c.date, None, prime_selector(&c.site, c.date));
-        let got = compute(&c.site, &spec, c.date, None);
-        let conv = compute_p(&c.site, &params_none, c.date, None);
+        prime(&c.site, &spec, c.date, c.weather, prime_selector(&c.site, c.date));
+        let got = compute(&c.site, &spec, c.date, c.weather);
+        let conv = compute_p(&c.site, &params_none, c.date, c.weather);
+        if c.weather.is_some() {
+            st.class("explicit_weather");
+        }
         let missing = conv[&Prayer::Fajr].is_err() || conv[&Prayer::Isha].is_err();
         if !missing && !c.all_prayers {
             // nothing for this property to decide (C08 covers the identity on good days)
             st.class("all_twilight_exists_on_requested_date");
             return Ok(());
         }
-        let Some((gdate, gtimes, k)) = model(&c.site, &params_none, c.date) else {
+        let Some((gdate, gtimes, k)) = model(&c.site, &params_none, c.date, if c.boundary_lat { None } else { c.weather }) else {
             st.skip("model_finds_no_good_day_within_366_days");
             return Ok(());
         };
@@ -246,7 +253,7 @@ impl C09 {
             // tie: both sides good at distance k
             let later = c.date + chrono::Duration::days(k);
             if gdate < c.date {
-                let tl = compute_p(&c.site, &params_none, later, None);
+                let tl = compute_p(&c.site, &params_none, later, c.weather);
                 if tl[&Prayer::Fajr].is_ok() && tl[&Prayer::Isha].is_ok() {
                     st.class("tie_both_sides_good_earlier_wins");
                 }
@@ -276,8 +283,9 @@ impl Prop for C09 {
     fn strategy(&self, _tier: Tier) -> BoxedStrategy<Case> {
         let lat = (46.0..=64.0f64, any::<bool>()).prop_map(|(l, s)| if s { l } else { -l });
         let lat = prop_oneof![6 => lat, 1 => prop_oneof![Just(64.0), Just(-64.0), Just(46.0), Just(-46.0)], 2 => (55.0..=64.0f64, any::<bool>()).prop_map(|(l, s)| if s { l } else { -l })].boxed();
-        (gen::site_lat(lat, 2.0), gen::pick(&gen::ANGLE_METHODS), prop_oneof![3 => Just(false), 1 => Just(true)], 1600..=2399i32, 0.0..1.0f64, 0u8..10, prop_oneof![15 => Just(false), 1 => Just(true)])
-            .prop_map(|(site, method, all_prayers, year, u, kind, boundary_lat)| {
+        let weather = prop_oneof![3 => Just(None), 1 => gen::weather_opt()];
+        (gen::site_lat(lat, 2.0), gen::pick(&gen::ANGLE_METHODS), prop_oneof![3 => Just(false), 1 => Just(true)], 1600..=2399i32, 0.0..1.0f64, 0u8..10, prop_oneof![15 => Just(false), 1 => Just(true)], weather)
+            .prop_map(|(site, method, all_prayers, year, u, kind, boundary_lat, weather)| {
                 // dates weighted to the local summer and to the first/last 15 days of the year (constructed)
                 let north = site.lat.0 >= 0.0;
                 let len = if gen::is_leap(year) { 366 } else { 365 };
@@ -292,7 +300,7 @@ impl Prop for C09 {
                     _ => (u * len as f64) as i64,
                 };
                 let date = gen::clamp_date(gen::ymd(year, 1, 1) + chrono::Duration::days(doy.clamp(0, len - 1)));
-                Case { site, method, all_prayers, date, boundary_lat }
+                Case { site, method, all_prayers, date, boundary_lat, weather: if boundary_lat { None } else { weather } }
             })
             .boxed()
     }
@@ -319,6 +327,7 @@ impl Prop for C09 {
                 all_prayers: (si + di as usize) % 5 == 0,
                 date: first + chrono::Duration::days(di as i64),
                 boundary_lat: false,
+                weather: None,
             };
             guarded(&c, || self.check_inner(&c, st))?;
         }
